@@ -38,7 +38,10 @@ def main():
         if a == "--seeds":
             seeds = sys.argv[i + 1].split(",")
     args = [a for a in args if a not in (tier,) and a not in (",".join(seeds),)]
-    src = "/tmp/seed/%s/out/%s" % (pid, mid)
+    n = int(mid[1:])
+    rnd, local = (n - 1) // 2 + 1, (n - 1) % 2 + 1   # m1,m2 = round 1; m3,m4 = round 2 (/tmp/seed2/.../m1,m2) ...
+    seedbase = "/tmp/seed%s/%s" % ("" if rnd == 1 else str(rnd), pid)
+    src = "%s/out/m%d" % (seedbase, local)
     if not os.path.exists(src + "/patch.diff"):
         src = os.path.join(ROOT, "seeded", "%s-%s" % (pid, mid))
     meta = json.load(open(src + "/meta.json"))
@@ -77,8 +80,8 @@ def main():
             # demo
             dpath, dcmd = meta.get("demo_path"), meta.get("demo_cmd")
             dpath = (dpath or "").split()[0].rstrip(",;") if dpath else dpath
-            if dpath and dpath.startswith("/tmp/seed/%s/wt/" % pid):
-                dpath = dpath[len("/tmp/seed/%s/wt/" % pid):]
+            if dpath and dpath.startswith(seedbase + "/wt/"):
+                dpath = dpath[len(seedbase + "/wt/"):]
             demo_files = [f for f in os.listdir(src) if f not in ("patch.diff", "meta.json") and not f.endswith(".log")]
             if "demo_test.go" in demo_files:
                 demo_files = ["demo_test.go"]  # the primary demonstration; optional extras are not placed
@@ -101,7 +104,7 @@ def main():
                     shutil.copy(s, d)
                     placed.append(d)
             dcmd = re.split(r"\s{2,}\(", dcmd or "")[0]
-            dcmd = dcmd.replace("/tmp/seed/%s/wt" % pid, wt)
+            dcmd = dcmd.replace(seedbase + "/wt", wt)
             rc1, out1 = sh(dcmd, cwd=wt, timeout=900)
             sh("git checkout -- .", cwd=wt)
             rc2, out2 = sh(dcmd, cwd=wt, timeout=900)
